@@ -355,6 +355,21 @@ def _check_point(p, b1, b2, base_as_ecef, ctx):
         raise Bad({"what": "Geo->ENU(base)->Geo does not return the original position", "position": p, "base": b1,
                    "base_as_ecef": base_as_ecef, "enu": _enu_t(enu1), "got": _geo_t(g3),
                    "error_deg_deg_m": list(_geo_err(g3, p))})
+    # --- a local position given directly, with U exactly 0 (a planimetric survey; 0 is a regular height in a local
+    #     frame, not "no height"): ENU -> Geo against the closed form (base + E east + N north in Earth-centred
+    #     coordinates, then the iterative inverse)
+    if abs(enu1.E) < 2.0e5 and abs(enu1.N) < 2.0e5 and abs(b1[1]) < 89.0:
+        flat = ENUCoords(enu1.E, enu1.N, 0.0)
+        gf = _need(M.call(flat.toGeoCoords, B1), "ENUCoords(E, N, 0).toGeoCoords", **info)
+        e_, n_, _u = G.enu_axes(b1[0], b1[1])
+        X0 = G.geo_to_ecef(b1[0], b1[1], b1[2])
+        Xf = tuple(X0[k] + enu1.E * e_[k] + enu1.N * n_[k] for k in range(3))
+        pf = G.ecef_to_geo(*Xf)
+        ctx.monitor("enu_with_zero_up.vs_closed_form")
+        if not _finite(gf.lon, gf.lat, gf.hgt) or not _geo_ok(gf, pf):
+            raise Bad({"what": "ENUCoords(E, N, 0).toGeoCoords(base) is not the position E east and N north of the base in "
+                               "its tangent plane", "enu": [enu1.E, enu1.N, 0.0], "base": b1, "base_as_ecef": base_as_ecef,
+                       "got": _geo_t(gf), "expected": list(pf), "error_deg_deg_m": _geo_err(gf, pf)})
     # --- ECEF -> ENU(base) -> ECEF  (start from the reference Earth-centred coordinates)
     ec = ECEFCoords(X[0], X[1], X[2])
     enu_e = _need(M.call(ec.toENUCoords, B1), "ECEFCoords.toENUCoords", **info)
